@@ -266,6 +266,24 @@ func c02Property(t *rapid.T) {
 	nPairs := rapid.IntRange(2, 7).Draw(t, "pairs")
 	s := newIBTPScenario(t, "C02", audit, nPairs)
 	defer s.close()
+	unorderedPair := -1
+	if rapid.IntRange(0, 2).Draw(t, "unorderedSource") == 0 {
+		// a pair whose source service is registered as unordered (its destination is ordered): requests and receipts of
+		// the pair are index-checked like those of every other pair
+		s.w.RegisterService(sim.ChainAdmins["chainB"], "chainB", "u1", false, "")
+		s.pairs = append(s.pairs, &ibtpPair{from: sim.FullID(s.w.BxhID, "chainB", "u1"), to: sim.FullID(s.w.BxhID, "chainA", "s1"), srcChain: "chainB", dstChain: "chainA",
+			srcKey: sim.ChainAdmins["chainB"], dstKey: sim.ChainAdmins["chainA"], destOK: true})
+		s.reqAcc = append(s.reqAcc, 0)
+		s.rcpAcc = append(s.rcpAcc, 0)
+		s.logf("pair %d has the unordered source service chainB:u1", len(s.pairs)-1)
+		unorderedPair = len(s.pairs) - 1
+	}
+	pickPair := func(t *rapid.T) int {
+		if unorderedPair >= 0 && rapid.IntRange(0, 2).Draw(t, "theUnorderedPair") == 0 {
+			return unorderedPair
+		}
+		return rapid.IntRange(0, len(s.pairs)-1).Draw(t, "pair")
+	}
 	s.router = s.w.N.Router()
 	p := &c02Prop{s: s, acceptedReq: map[int]bool{}, rejectedDup: map[int]bool{}, rejectedFuture: map[int]bool{}, delivered: map[string]uint64{}}
 	seal := func() {
@@ -278,12 +296,12 @@ func c02Property(t *rapid.T) {
 	}
 	t.Repeat(map[string]func(*rapid.T){
 		"request": func(t *rapid.T) {
-			pi := rapid.IntRange(0, len(s.pairs)-1).Draw(t, "pair")
+			pi := pickPair(t)
 			req, _ := s.countersNow(pi)
 			s.addRequest(pi, drawIndex(t, req+1, "idx"), rapid.SampledFrom([]int64{0, 2, 10}).Draw(t, "T"))
 		},
 		"receipt": func(t *rapid.T) {
-			pi := rapid.IntRange(0, len(s.pairs)-1).Draw(t, "pair")
+			pi := pickPair(t)
 			_, rcp := s.countersNow(pi)
 			typ := rapid.SampledFrom([]pb.IBTP_Type{pb.IBTP_RECEIPT_SUCCESS, pb.IBTP_RECEIPT_SUCCESS, pb.IBTP_RECEIPT_FAILURE, pb.IBTP_RECEIPT_ROLLBACK}).Draw(t, "rtype")
 			s.addReceipt(pi, drawIndex(t, rcp+1, "idx"), typ)
